@@ -6,8 +6,10 @@ Whatever is not listed below raises `Untranslatable(node, reason)`; nothing is g
 
 VALUES   int -> Z;  bool -> bool;  list / tuple / Sequence / torch.Size / iterator of T -> list T;  a fixed-length tuple
          display (a, b) -> a Gallina pair;  Tensor -> PyPrelude.tensor (offset, numel, shape);  float hyperparameters ->
-         Hyper.pynum (only compared, never computed with).  Parameter types come from the annotations (`ANN`) or from the
-         target (`Target.types`); the types of locals are inferred from the expressions bound to them.
+         Hyper.pynum (only compared, never computed with);  `int | Sequence[int]` -> a Gallina sum type listed in `UNIONS`;
+         Callable[[int], int] -> a total function Z -> Z;  an exception object passed as argument -> py_exception (opaque).
+         Parameter types come from the annotations (`ANN`) or from the target (`Target.types`); the types of locals are inferred
+         from the expressions bound to them.
 OUTCOMES every translated function returns `result T`: `Ret v`, `Raise <class> <site>` or `OutOfFuel` (PyPrelude.v).
          Sub-expressions that can raise are evaluated in Python's left-to-right order through `bind`.
 
@@ -15,7 +17,8 @@ EXPRESSIONS (e : T means "e has inferred type T")
   n, True, False, -n            literal (an int literal compared with a pynum is `PInt n`, a float literal `PFlt (p # q)` exact)
   x                             a parameter or a local bound earlier on EVERY path reaching this point
   <atom>                        a sub-expression whose source text is listed in Target.atoms becomes the named parameter
-  a + b, a - b, a * b           Z.add / Z.sub / Z.mul on Z;  `+` on two lists is `++`
+                                (`step.item()`, `group[KEY]`, an attribute `self.x` that the function only reads)
+  a + b, a - b, a * b           Z.add / Z.sub / Z.mul on Z;  `+` on two lists is `++`;  l * n and (x,) * n : py_list_mul (n copies)
   a // b, a % b                 py_floordiv / py_mod (ZeroDivisionError when b = 0; otherwise Z.div / Z.modulo = Python floor)
   a < b <= c ...                chained comparison = conjunction, middle operands evaluated once, short-circuit kept;
                                 on Z: Z.ltb / Z.leb / Z.eqb (`a > b` is emitted as `b <? a`, `a != b` as negb (a =? b));
@@ -25,29 +28,52 @@ EXPRESSIONS (e : T means "e has inferred type T")
   a if c else b                 if c then a else b
   len(l) prod(l) math.prod(l) sum(l) list(l) tuple(l)          py_len py_prod py_prod py_sum, identity, identity
   [a, b], (a, b), l[i], l[a:], p[0] / p[1] on a pair           list, pair, py_index (IndexError), py_slice_from, fst / snd
-  filter(lambda t: c, l), all(c for t in l)                    List.filter, List.forallb with a pure c
+  filter(lambda t: c, l), all(c for t in l), all(l)            List.filter, List.forallb with a pure c / on a list of bools
+  [e for x in l], tuple(e for x in l), list(e for x in l)      map (fun x => e) l;  py_mapM (left to right) when e can raise
+  len(set(l))                                                   py_len_set: number of distinct ints (a set is not a value otherwise)
+  enumerate(l)                                                  py_enumerate: [(0, l0); (1, l1); ...]
+  sorted(l, key=operator.itemgetter(1) | lambda p: p[1], reverse=True)
+                                                                py_sorted_desc_snd: STABLE, descending in the int second component
+  g(e) with g a Callable parameter;  lambda x: e as an argument  application;  (fun x => e) with a pure int e
   compress(l, s) chain(l1, l2) accumulate(l) pairwise(l)       py_compress, ++, py_accumulate, py_pairwise
   range(n), range(a, b)                                        py_range
   t.size() t.numel() t.narrow(0, a, n) t.view(l)               t_shape t_len t_narrow0 t_view (first argument of narrow must be 0)
-  f(args), f(k=v, ...)          call of a function translated in the same run (nested def, or itself): positional / keyword
-                                arguments matched to its parameters; a recursive function gets an explicit fuel argument
+  f(args), f(k=v, ...)          call of a function translated in the same run (nested def, itself, or - by the source text of the
+                                callee expression, Target.calls, e.g. `super().__post_init__` or `Base.static_method` - an earlier
+                                target): positional / keyword arguments matched to its parameters, the `self.x` atoms the callee
+                                reads are passed on under the same names; a recursive function gets an explicit fuel argument
 STATEMENTS (a block is translated together with "what follows it", so a variable is only visible where Python binds it)
   x = e, x: T = e               let x := e in ...        (`x = f(..)` : bind (f ..) (fun x => ...))
+  (a, b) = e                    let '(a, b) := e in ...  for a pair e
   x[i] = e, x.append(e)         re-binding of x to py_setitem x i e / x ++ [e]; only if x is a local initialised by a list
-                                display or list(..) that is never aliased (never bound to another name, stored or passed on)
+  x[i] += e, x[i] -= e          display, a list comprehension, list(..) or [..] * n that is never aliased (never bound to another
+                                name, stored or passed on), or a list owned by self listed in Target.state (below)
+  heapq.heapify(h); heapq.heappush(h, p); x = heapq.heappop(h); (a, b) = heapq.heappop(h)
+                                on such a local list h of int pairs: re-binding of h to pq_heapify h / pq_push h p / the rest
+                                returned by pq_pop h (PyPrelude: the heap is a bag, pop removes the lexicographic minimum or
+                                raises IndexError); heappop only in these two statement forms
   if c: A elif d: B else: C     if c then A;rest else ...   (rest is duplicated into the branches that fall through);
                                 `if (y := e) <op> ...` binds y first; `if isinstance(x, Sequence)` on a Target.types union
                                 (`iro_t`) is a match that narrows x in both branches
-  for x in l: body              bind (py_for (fun state x => body; Ret state) l state) (fun state => rest); state = the locals
+  for x in l: / for a, b in l:  bind (py_for (fun state x => body; Ret state) l state) (fun state => rest); state = the locals
                                 bound before the loop that the body re-binds; no return/break/continue inside
-  return e / raise E(..) / assert c          Ret e / Raise E k / if c then rest else Raise AssertionError k
+  return e / raise E(..) / assert c          Ret e / Raise E k / if c then rest else Raise AssertionError k;
+                                k = Target.site_base + ordinal of the statement among the raise/assert statements of the function;
+                                `raise p` for a parameter p annotated Exception is Raise PassedException k;
+                                a function annotated `-> None` may fall off the end: Ret tt
   def g(...) inside a function  lifted to a top-level definition; the enclosing function's variables it reads become its
                                 leading parameters (they must not be re-bound after the def)
   docstrings, pass, calls listed in Target.ignore_calls (logging), bare f-strings whose fields cannot raise      no effect
   decorators                    only staticmethod / classmethod / abstractmethod / torch.no_grad() (no effect on the value)
+STATE    Target.state lists `self.x` attributes (lists) that the function updates in place: they become parameters AND results -
+         the function returns Ret (Returned v | Raised E k, final lists) (PyPrelude.completion), so an update made before a
+         `raise` statement is kept.  Such a function cannot be called from translated code.
 RECURSION a function that calls itself becomes `Fixpoint f (fuel : nat) ... := match fuel with O => OutOfFuel | S fuel => ..`;
           the first call from outside passes Target.fuel (a Gallina term over the caller's parameters).
-TARGET MODES  "function": a def (possibly a method, found by qualified name);  "exprs": the right-hand sides of the unique
+TARGET MODES  "function": a def (possibly a method, found by qualified name); its Target.atoms / Target.state are extra parameters;
+          "alias": Class.method resolved through the single-inheritance chain of classes in the file: the translation of the
+          defining class's method (an earlier target) gets the name Target.coq_name, `Ret tt` if no class of the chain defines it
+          (the chain must end in a class named in Target.names, assumed not to define the method);  "exprs": the right-hand sides of the unique
           assignments to the listed variable names inside a function, as functions of Target.atoms;  "prefix": the statements
           of a function up to (excluding) the first statement whose text starts with Target.stop_before, returning the tuple
           Target.returns of locals.
